@@ -193,7 +193,14 @@ func (h *c14v2) session(fn func(rt *rhp2.Transport)) (pan any, site string) {
 		}
 		sess := rhp2h.VerifNewSession(t)
 		defer t.Close()
-		defer h.sh.VerifEnd(sess)
+		defer func() { // the end of the session releases the lock it holds: that must not crash the host either
+			defer func() {
+				if r := recover(); r != nil && pan == nil {
+					pan, site = r, "v2.SessionHandler.upgrade(session end)"
+				}
+			}()
+			h.sh.VerifEnd(sess)
+		}()
 		for {
 			var err error
 			func() {
@@ -337,13 +344,16 @@ func TestVerifC14RHP2(t *testing.T) {
 		}
 		rng := verifCaseRand(id)
 		nr := []int{3, 3, 3, 2, 4, 1, 0}[rng.Intn(7)]
-		if id < 13 {
+		if id < 14 {
 			nr = 3
 		}
 		h.newContract(id, nr)
 		before, roots := state()
 		nsec := uint64(len(roots))
 		kind := rng.Intn(10)
+		if id == 13 {
+			kind = 100 // an append, after a refused Lock (below)
+		}
 		if id < 13 {
 			// directed: append, update+proof, empty roots range, wrapping roots range, full
 			// roots range, wrapping read section, last leaf, zero-length renter key, renewal
@@ -354,6 +364,24 @@ func TestVerifC14RHP2(t *testing.T) {
 		}
 		em.BeginCase(id, fmt.Sprintf("rhp2 session, kind %d, contract has %d sectors", kind, nsec))
 		em.Step(fmt.Sprintf("RSetContract %d %s", before.Revision.RevisionNumber, c14Roots(roots)), "RDone")
+		// a session whose Lock request carries a wrong challenge signature: refused, nothing stays
+		// locked, the host survives the end of that session; the case's own session follows
+		if id == 13 || (id > 13 && rng.Intn(6) == 0) {
+			var lerr error
+			lpan, lsite := h.session(func(rt *rhp2.Transport) {
+				sig := rt.SignChallenge(h.renterKey)
+				sig[5] ^= 0x40
+				req := &rhp2.RPCLockRequest{ContractID: h.cid, Signature: sig, Timeout: 1000}
+				var resp rhp2.RPCLockResponse
+				lerr = rt.Call(rhp2.RPCLockID, req, &resp)
+			})
+			em.Count("lock:bad-challenge")
+			if lpan != nil {
+				em.Monitor("panic-"+lsite, fmt.Sprintf("Lock with a wrong challenge signature: %v", lpan))
+			} else if lerr == nil {
+				em.Monitor("lock-granted-for-wrong-challenge-signature", "")
+			}
+		}
 
 		var op, resTerm string
 		readAbsent := false // a read names a sector the host does not have
